@@ -17,7 +17,7 @@ import (
 // and routes the lookup of a key in (J, S] through its finger J, which has no
 // successor yet. Returns the error the client saw ("" =
 // success or retryable).
-func joiningNodeKVWindow() (problem string) {
+func joiningNodeKVWindow(repairFingers bool) (problem string) {
 	const (
 		P = uint64(1) << 44
 		J = uint64(2) << 44
@@ -62,8 +62,12 @@ func joiningNodeKVWindow() (problem string) {
 	if s := r.members[P].Node.VerifSuccessors(); len(s) == 0 || s[0].ID() != J {
 		return fmt.Sprintf("precondition: P's successor is %v, not the joiner", vids(s))
 	}
-	// ... and repairs its fingers, some of which now point to the joiner
-	r.members[P].Node.VerifFixFinger()
+	// ... and repairs its fingers, some of which now point to the joiner - or does not get to it:
+	// then no finger precedes a key in (J, S] and the lookup walks the ring via the successor
+	// pointer, to a joiner that has no successors yet
+	if repairFingers {
+		r.members[P].Node.VerifFixFinger()
+	}
 	ctx := context.Background()
 	err := r.members[P].Node.Put(ctx, key, []byte("v"))
 	if err != nil && !chord.ErrorIsRetryable(err) {
@@ -75,3 +79,4 @@ func joiningNodeKVWindow() (problem string) {
 	}
 	return ""
 }
+
